@@ -486,13 +486,57 @@ func runR056(c *core.Ctx) {
 	pathT, _ := mustObj(c, rel, "pathNode").(*types.TypeName)
 	_, handlerD := mustDecl(c, rel, "(*rootNode).Handler")
 	_, cloneD := mustDecl(c, rel, "(*pathNode).clone")
-	copyMapF := mustFunc(c, rel, "copyMap")
-	copyCloneF := mustFunc(c, rel, "copyCloneableMap")
+	// helpers that return a freshly made map/slice into which every entry of their parameter is copied
+	// (discovered by shape, not by name)
+	freshHelpers := map[*types.Func]bool{}
+	for _, d := range c.M.FuncDecls(rel) {
+		if d.Body == nil || d.Recv != nil {
+			continue
+		}
+		hasMake, hasRange, returnsNew := false, false, false
+		var newObj types.Object
+		ast.Inspect(d.Body, func(n ast.Node) bool {
+			switch x := n.(type) {
+			case *ast.AssignStmt:
+				if len(x.Rhs) == 1 && len(x.Lhs) == 1 {
+					if call, ok := core.Unparen(x.Rhs[0]).(*ast.CallExpr); ok {
+						if id, ok := core.Unparen(call.Fun).(*ast.Ident); ok && id.Name == "make" {
+							if _, isB := inf.Uses[id].(*types.Builtin); isB && newObj == nil {
+								hasMake = true
+								newObj = core.ObjOf(inf, x.Lhs[0])
+							}
+						}
+					}
+				}
+			case *ast.RangeStmt:
+				if isParamOf(inf, d, asVar(core.ObjOf(inf, x.X))) {
+					for _, s := range x.Body.List {
+						if as, ok := s.(*ast.AssignStmt); ok && len(as.Lhs) == 1 {
+							if ix, ok := core.Unparen(as.Lhs[0]).(*ast.IndexExpr); ok && core.ObjOf(inf, ix.X) == newObj && core.ObjOf(inf, ix.Index) == core.ObjOf(inf, x.Key) {
+								hasRange = true
+							}
+						}
+					}
+				}
+			case *ast.ReturnStmt:
+				if len(x.Results) == 1 && core.ObjOf(inf, x.Results[0]) == newObj && newObj != nil {
+					returnsNew = true
+				}
+			}
+			return true
+		})
+		if hasMake && hasRange && returnsNew {
+			if f, ok := inf.Defs[d.Name].(*types.Func); ok {
+				freshHelpers[f] = true
+				c.OK(rel, core.DeclName(d), "allocates a new map and copies every entry", d.Pos(), "discovered copy helper")
+			}
+		}
+	}
 	fresh := func(e ast.Expr) (bool, string) {
 		switch x := core.Unparen(e).(type) {
 		case *ast.CallExpr:
 			f := core.Callee(inf, x)
-			if f != nil && (f.Origin() == copyMapF || f.Origin() == copyCloneF) {
+			if f != nil && freshHelpers[f.Origin()] {
 				return true, f.Name()
 			}
 			if id, ok := core.Unparen(x.Fun).(*ast.Ident); ok {
@@ -501,7 +545,6 @@ func runR056(c *core.Ctx) {
 					case "make":
 						return true, "make"
 					case "append":
-						// append(<nil slice>, xs...)
 						if len(x.Args) >= 1 {
 							first := core.Unparen(x.Args[0])
 							if core.IsNil(inf, first) {
@@ -519,29 +562,68 @@ func runR056(c *core.Ctx) {
 		}
 		return false, ""
 	}
-	checkLit := func(fd *ast.FuncDecl, T *types.TypeName) {
-		st := T.Type().Underlying().(*types.Struct)
-		var lit *ast.CompositeLit
+	// a local map variable filled by a loop calling clone() on every value is fresh too (inline copyCloneableMap)
+	localFresh := func(fd *ast.FuncDecl, e ast.Expr) bool {
+		obj := core.ObjOf(inf, e)
+		if obj == nil {
+			return false
+		}
+		ok := false
 		ast.Inspect(fd.Body, func(n ast.Node) bool {
-			if cl, ok := n.(*ast.CompositeLit); ok {
-				if nt, ok := inf.Types[cl].Type.(*types.Named); ok && nt.Obj() == T {
-					lit = cl
+			if as, isAs := n.(*ast.AssignStmt); isAs && len(as.Lhs) == 1 && len(as.Rhs) == 1 && core.ObjOf(inf, as.Lhs[0]) == obj {
+				if f, _ := fresh(as.Rhs[0]); f {
+					ok = true
 				}
 			}
 			return true
 		})
+		return ok
+	}
+	checkCopy := func(fd *ast.FuncDecl, T *types.TypeName) {
+		st := T.Type().Underlying().(*types.Struct)
 		fn := core.DeclName(fd)
-		if lit == nil {
-			c.Unknown(rel, fn, "copy literal of "+T.Name(), fd.Pos(), "no composite literal of the node type")
-			return
-		}
-		vals := map[string]ast.Expr{}
-		for _, el := range lit.Elts {
-			if kv, ok := el.(*ast.KeyValueExpr); ok {
-				if id, ok := kv.Key.(*ast.Ident); ok {
-					vals[id.Name] = kv.Value
+		defs := map[string][]ast.Expr{}
+		hasLit, hasStructCopy := false, false
+		ast.Inspect(fd.Body, func(n ast.Node) bool {
+			switch x := n.(type) {
+			case *ast.CompositeLit:
+				if nt, ok := inf.Types[x].Type.(*types.Named); ok && nt.Obj() == T {
+					hasLit = true
+					for _, el := range x.Elts {
+						if kv, ok := el.(*ast.KeyValueExpr); ok {
+							if id, ok := kv.Key.(*ast.Ident); ok {
+								defs[id.Name] = append(defs[id.Name], kv.Value)
+							}
+						}
+					}
+				}
+			case *ast.AssignStmt:
+				for i, l := range x.Lhs {
+					if i >= len(x.Rhs) {
+						break
+					}
+					// struct copy: c := *p  /  *n = *p  of type T
+					if tv, ok := inf.Types[x.Rhs[i]]; ok {
+						if nt, ok := tv.Type.(*types.Named); ok && nt.Obj() == T {
+							if _, isDeref := core.Unparen(x.Rhs[i]).(*ast.StarExpr); isDeref {
+								hasStructCopy = true
+							}
+						}
+					}
+					if sel, ok := core.Unparen(l).(*ast.SelectorExpr); ok {
+						if fv, ok := core.ObjOf(inf, sel).(*types.Var); ok && fv.IsField() {
+							if nn := namedOf(inf.Types[sel.X].Type); nn != nil && nn.Obj() == T {
+								defs[fv.Name()] = append(defs[fv.Name()], x.Rhs[i])
+							}
+						}
+					}
 				}
 			}
+			return true
+		})
+		if !hasLit && !hasStructCopy {
+			c.Unknown(rel, fn, "copy of "+T.Name(), fd.Pos(), "neither a composite literal nor a struct copy of the node type")
+			return
 		}
 		for i := 0; i < st.NumFields(); i++ {
 			f := st.Field(i)
@@ -551,57 +633,69 @@ func runR056(c *core.Ctx) {
 				continue
 			}
 			construct := fmt.Sprintf("%s.%s is a fresh allocation in the copy", T.Name(), f.Name())
-			v := vals[f.Name()]
-			if v == nil {
-				c.Bad(rel, fn, construct, lit.Pos(), "reference-typed field not set in the copy literal")
+			vs := defs[f.Name()]
+			if len(vs) == 0 {
+				why := "reference-typed field not set in the copy literal"
+				if hasStructCopy && !hasLit {
+					why = "the struct copy shares this map/slice with the original and it is never replaced: later registrations (or mutations) show through the obtained handler"
+				}
+				c.Bad(rel, fn, construct, fd.Pos(), why)
 				continue
 			}
-			ok, how := fresh(v)
-			c.Check(ok, rel, fn, construct, v.Pos(), how, core.ExprString(v)+" shares storage with the original")
+			okAll, how := true, ""
+			for _, v := range vs {
+				ok, h := fresh(v)
+				if !ok && localFresh(fd, v) {
+					ok, h = true, "local filled from a fresh map"
+				}
+				if !ok {
+					okAll = false
+					how = core.ExprString(v) + " shares storage with the original"
+				} else if how == "" {
+					how = h
+				}
+			}
+			c.Check(okAll, rel, fn, construct, vs[0].Pos(), how, how)
 		}
 	}
-	checkLit(cloneD, pathT)
-	checkLit(handlerD, rootT)
-	// copy helpers allocate and copy every entry
-	for _, name := range []string{"copyMap", "copyCloneableMap"} {
-		_, d := mustDecl(c, rel, name)
-		hasMake, hasRange, returnsNew := false, false, false
-		var newObj types.Object
+	checkCopy(cloneD, pathT)
+	checkCopy(handlerD, rootT)
+	// sub-nodes are cloned recursively: clone() is called for the values of subNodes somewhere in clone or a helper it uses
+	recurses := false
+	cloneF := mustFunc(c, rel, "(*pathNode).clone")
+	for _, d := range c.M.FuncDecls(rel) {
+		if d.Body == nil {
+			continue
+		}
 		ast.Inspect(d.Body, func(n ast.Node) bool {
-			switch x := n.(type) {
-			case *ast.AssignStmt:
-				if len(x.Rhs) == 1 {
-					if ok, how := fresh(x.Rhs[0]); ok && how == "make" {
-						hasMake = true
-						newObj = core.ObjOf(inf, x.Lhs[0])
+			if call, ok := n.(*ast.CallExpr); ok {
+				if sel, ok := core.Unparen(call.Fun).(*ast.SelectorExpr); ok && sel.Sel.Name == "clone" {
+					if _, inLoop := enclosingRange(core.Parents(d), call); inLoop {
+						recurses = true
 					}
-				}
-			case *ast.RangeStmt:
-				// for k, v := range m { new[k] = … }
-				if isParamOf(inf, d, asVar(core.ObjOf(inf, rs(x).X))) {
-					for _, s := range x.Body.List {
-						if as, ok := s.(*ast.AssignStmt); ok && len(as.Lhs) == 1 {
-							if ix, ok := core.Unparen(as.Lhs[0]).(*ast.IndexExpr); ok && core.ObjOf(inf, ix.X) == newObj && core.ObjOf(inf, ix.Index) == core.ObjOf(inf, x.Key) {
-								hasRange = true
-							}
-						}
-					}
-				}
-			case *ast.ReturnStmt:
-				if len(x.Results) == 1 && core.ObjOf(inf, x.Results[0]) == newObj && newObj != nil {
-					returnsNew = true
 				}
 			}
 			return true
 		})
-		c.Check(hasMake && hasRange && returnsNew, rel, name, "allocates a new map and copies every entry", d.Pos(), "", fmt.Sprintf("make=%v copy-loop=%v returns-new=%v", hasMake, hasRange, returnsNew))
 	}
+	_ = cloneF
+	c.Check(recurses, rel, "(*pathNode).clone", "sub-nodes are cloned recursively (clone() inside a loop over the sub-node map)", cloneD.Pos(), "", "no loop calls clone() on the sub-nodes: the copy shares its children with the original")
 	// back-pointer: in Handler, `p.rootNode = deepCopy` where deepCopy is the new literal
 	backOK := false
 	ast.Inspect(handlerD.Body, func(n ast.Node) bool {
-		if as, ok := n.(*ast.AssignStmt); ok && len(as.Lhs) == 1 && len(as.Rhs) == 1 {
-			if sel, ok := core.Unparen(as.Lhs[0]).(*ast.SelectorExpr); ok && sel.Sel.Name == "rootNode" {
-				if v, ok := core.ObjOf(inf, as.Rhs[0]).(*types.Var); ok && !isParamOf(inf, handlerD, v) && v != recvObj(inf, handlerD) {
+		switch x := n.(type) {
+		case *ast.AssignStmt:
+			if len(x.Lhs) == 1 && len(x.Rhs) == 1 {
+				if sel, ok := core.Unparen(x.Lhs[0]).(*ast.SelectorExpr); ok && sel.Sel.Name == "rootNode" {
+					if v, ok := core.ObjOf(inf, x.Rhs[0]).(*types.Var); ok && !isParamOf(inf, handlerD, v) && v != recvObj(inf, handlerD) {
+						backOK = true
+					}
+				}
+			}
+		case *ast.CallExpr:
+			// clone(newRoot) style
+			if sel, ok := core.Unparen(x.Fun).(*ast.SelectorExpr); ok && sel.Sel.Name == "clone" && len(x.Args) == 1 {
+				if v, ok := core.ObjOf(inf, x.Args[0]).(*types.Var); ok && v != recvObj(inf, handlerD) {
 					backOK = true
 				}
 			}
@@ -609,6 +703,15 @@ func runR056(c *core.Ctx) {
 		return true
 	})
 	c.Check(backOK, rel, "(*rootNode).Handler", "copied tree points back at the copied root", handlerD.Pos(), "", "no assignment of the new root to the copy's rootNode back-pointer")
+}
+
+func enclosingRange(par map[ast.Node]ast.Node, n ast.Node) (*ast.RangeStmt, bool) {
+	for p := par[n]; p != nil; p = par[p] {
+		if rs, ok := p.(*ast.RangeStmt); ok {
+			return rs, true
+		}
+	}
+	return nil, false
 }
 
 func rs(x *ast.RangeStmt) *ast.RangeStmt { return x }
